@@ -9,7 +9,7 @@ from .. import report as R
 from ..report import RuleSpec
 from .. import sym
 from .. import cmp as P
-from .common import unparse, call_name, local_defs
+from .common import unparse, call_name, local_defs, short
 from . import timing_common as T
 
 SNAP = "reamber.algorithms.timing.utils.snap.Snap"
@@ -1351,6 +1351,37 @@ def rule_r11(ctx) -> List[R.Inst]:
                    construct=f"Snapper.__init__: {d} used only through max()")]
 
 
+def rule_r13(ctx) -> List[R.Inst]:
+    """an argument the timing engine accepts is used: a parameter of a conversion that is never read (the caller's Snapper replaced
+    by `self.snapper`, a rate taken from a default) makes the call ignore what the caller asked for — every caller in the library
+    passes the default, so nothing notices"""
+    M = ctx.M
+    rid = "C10.R13"
+    insts = []
+    n_fn = 0
+    for q, f in sorted(M.funcs.items()):
+        if not q.startswith("reamber.algorithms.timing.") or f.outer_fn is not None:
+            continue
+        n_fn += 1
+        ps = [a.arg for a in f.node.args.posonlyargs + f.node.args.args + f.node.args.kwonlyargs if a.arg not in ("self", "cls")]
+        loads = {x.id for x in ast.walk(f.node) if isinstance(x, ast.Name) and isinstance(x.ctx, ast.Load)}
+        body = [b for b in f.node.body if not (isinstance(b, ast.Expr) and isinstance(b.value, ast.Constant))]
+        if len(body) == 1 and isinstance(body[0], (ast.Pass, ast.Raise)) or any(unparse(d).endswith("abstractmethod") or unparse(d).endswith("overload")
+                                                                               for d in f.node.decorator_list):
+            continue
+        for p_ in ps:
+            if p_ not in loads and not p_.startswith("_"):
+                other = sorted({unparse(x) for x in ast.walk(f.node) if isinstance(x, ast.Attribute) and isinstance(x.value, ast.Name) and
+                                x.value.id == "self" and x.attr == p_})
+                insts.append(R.viol(rid, f"{short(q)}:{p_}", M.mods[f.mod].rel, f.node.lineno,
+                                    f"the parameter '{p_}' of {f.name} is never read" + (f" ('{other[0]}' is used instead)" if other else "") +
+                                    ": the conversion ignores what the caller passes — with a Snapper other than the default one the nearest "
+                                    "ALLOWED fraction is not returned", construct=f"{f.name}: parameter {p_} unused"))
+    if not insts:
+        insts.append(R.ok(rid, "timing:parameters-used", "reamber/algorithms/timing", 0, idiom=f"every parameter of the {n_fn} functions of the timing package is read"))
+    return insts
+
+
 def rule_r12(ctx) -> List[R.Inst]:
     """an empty query is a query: offsets / snaps / beats may not index the query (or anything derived from it) with a
     constant outside a loop over it"""
@@ -1430,6 +1461,7 @@ SPECS = [
     RuleSpec("C10.R9", rule_r9, 2, "A8", "one position entry per tempo change (parallel lists)"),
     RuleSpec("C10.R11", rule_r11, 1, "A7", "the requested divisions constrain the fraction table"),
     RuleSpec("C10.R12", rule_r12, 3, "A8", "an empty query returns an empty result (no fixed-index access to the query)"),
+    RuleSpec("C10.R13", rule_r13, 1, "A8", "no parameter of a timing-engine function is accepted and ignored"),
     RuleSpec("C10.D", rule_dep, 1, "M0", "rules of the shared code (list classes and their generated accessors, hidden state) that the timing operations reach"),
     RuleSpec("C10.R6", rule_r6, 7, "A3", "snapping and the position/time conversions write no hidden state"),
 ]
